@@ -385,6 +385,14 @@ def oracle(ctx, res):
                         if b"\n" in rq.split(b"\r\n")[0]:
                             continue
                         reqlist.append((p, s, kind, layers, rq))
+            if listname == "full":
+                # a template that takes a path step from the request (a variable step is one step, whatever it holds)
+                tree.write("vars.html.tal", b'<html><body><ul tal:define="section protocol/searchrequest"><li tal:repeat="n root/?section/getchildrennames" tal:content="n">n</li></ul>'
+                                            b'<p tal:content="structure root/?section/outside-tpl | string:none">t</p></body></html>\n')
+                for srch in (b"docs", b"..", b"../private", b"docs/../..", b"docs/../../private", b"/", b"../private/new", b"."):
+                    reqlist.append(("gopher", "/vars.html.tal", "valid", 1, b"/vars.html.tal\t" + srch + b"\r\n"))
+                    reqlist.append(("http", "/vars.html.tal", "valid", 1, b"GET /vars.html.tal?searchrequest=" + srch.replace(b"/", b"%2F") + b" HTTP/1.0\r\n\r\n"))
+                    reqlist.append(("spartan", "/vars.html.tal", "valid", 1, b"h /vars.html.tal %d\r\n" % len(srch) + srch))
             cwds = {}
             for (p, s, kind, layers, rq) in reqlist:
                 outs = {}
